@@ -26,3 +26,7 @@ pub broadcast group group_shown { axiom_to_string_string }
 
 pub assume_specification<T, E> [std::result::Result::<T, E>::unwrap_or] (r: std::result::Result<T, E>, default: T) -> (v: T)
     ensures r matches Ok(x) ==> v == x, r is Err ==> v == default;
+
+// slice::to_vec: an element-wise clone; for element types whose clone is the value itself (String, integers) the views agree (ASSUMED)
+pub assume_specification<T: Clone> [<[T]>::to_vec] (s: &[T]) -> (r: Vec<T>)
+    ensures r@ == s@;
